@@ -137,8 +137,8 @@ def cv_atol(method, x, noise, prior):
 # generator
 
 @st.composite
-def cv_case(draw, method):
-    mode = draw(st.sampled_from(['explicit', 'explicit', 'default', 'default-many']))
+def cv_case(draw, method, modes):
+    mode = draw(st.sampled_from(modes))
     label_kind = draw(st.sampled_from(['int', 'str', 'char']))
     if mode == 'default-many':
         n_cond = draw(st.integers(2, 3))
@@ -285,14 +285,14 @@ def check_cv(case):
 
     # region naming for a value mismatch
     def value_sig():
-        str_labels = isinstance(U.py(labels[0]), str)
-        if not explicit and str_labels and n_f >= 10:
-            return 'default-cv-descriptor:string-typed'
         if method == 'poisson_cv':
             last = _vec(ref_cv(method, x, noise, prior, rm,
                                fold_pairs=[(m, n_f - 1) for m in range(n_f - 1)]))
             if core.close(lv, last, 1e-7, 1e-9):
                 return 'poisson_cv:last-fold-only'
+        str_labels = isinstance(U.py(labels[0]), str)
+        if not explicit and str_labels and n_f >= 10:
+            return 'default-cv-descriptor:string-typed'
         return 'value:%s:%s' % (method, modesig)
 
     # structural: within-fold products never contribute
@@ -371,12 +371,21 @@ def classify_cv(case):
     return labels, nt
 
 
+EXPLICIT = ['explicit']
+DEFAULT = ['default', 'default-many']
+
 SUBCHECKS = [
-    SubCheck('crossnobis', cv_case('crossnobis'), check_cv, classify_cv, quick=900,
-             doc='crossnobis (none / one / per-fold precision, remove_mean, explicit or default '
-                 'folds) == mean over ordered pairs of distinct folds; one-fold and two-fold '
+    SubCheck('crossnobis', cv_case('crossnobis', EXPLICIT), check_cv, classify_cv, quick=700,
+             doc='crossnobis with an explicit fold descriptor (none / one / per-fold precision, '
+                 'remove_mean) == mean over ordered pairs of distinct folds; one-fold and two-fold '
                  'structural forms; invariance to channel order, fold names, row order'),
-    SubCheck('poisson_cv', cv_case('poisson_cv'), check_cv, classify_cv, quick=700,
-             doc='poisson_cv == the same fold-pair mean of (l_am-l_bm).(log l_an-log l_bn)/P on '
-                 'prior-regularised rates; same structural forms and invariances'),
+    SubCheck('crossnobis_default', cv_case('crossnobis', DEFAULT), check_cv, classify_cv, quick=500,
+             doc='crossnobis with the default fold descriptor (k-th occurrence = fold k; 2-12 '
+                 'repetitions, width-1 string labels): same oracle and structural forms'),
+    SubCheck('poisson_cv', cv_case('poisson_cv', EXPLICIT), check_cv, classify_cv, quick=500,
+             doc='poisson_cv with an explicit fold descriptor == the same fold-pair mean of '
+                 '(l_am-l_bm).(log l_an-log l_bn)/P on prior-regularised rates; structural forms, '
+                 'invariances'),
+    SubCheck('poisson_cv_default', cv_case('poisson_cv', DEFAULT), check_cv, classify_cv, quick=400,
+             doc='poisson_cv with the default fold descriptor'),
 ]
